@@ -46,8 +46,8 @@ class Ctx:
         self.pid, self.tier, self.seed, self.worker, self.params, self.meta = pid, tier, seed, worker, params, meta
 
 
-def load_module(pid):
-    path = os.path.join(VERIF, "props", pid, "check.py")
+def load_module(pid, module_file="check.py"):
+    path = os.path.join(VERIF, "props", pid, module_file)
     spec = importlib.util.spec_from_file_location("prop_" + pid, path)
     mod = importlib.util.module_from_spec(spec)
     sys.path.insert(0, os.path.join(VERIF, "props", pid))
@@ -84,11 +84,14 @@ def worker_main(pid, tier, seed, widx, outpath, replay=None):
     from hypothesis import HealthCheck, Phase, given, settings
 
     meta = load_meta(pid)
+    if os.environ.get("VERIF_PART_META"):
+        with open(os.environ["VERIF_PART_META"]) as f:
+            meta = json.load(f)
     tp = meta["tiers"][tier]
     nworkers = int(tp.get("workers", 1))
     known_open, _ = load_known(pid)
     known = set(known_open)
-    mod = load_module(pid)
+    mod = load_module(pid, meta.get("module", "check.py"))
     ctx = Ctx(pid, tier, seed, widx, tp, meta)
     stats = {"evaluations": 0, "scenarios": 0, "nontrivial": 0, "distinct": set(), "labels": {}, "samples": [],
              "known_hits": {}, "inconclusive": {}, "violations": [], "notes": [], "replays_run": 0}
@@ -171,7 +174,7 @@ def worker_main(pid, tier, seed, widx, outpath, replay=None):
                     # a crash/assert really happened once; timing-dependent ones get more attempts before being set aside
                     ok, sig, detail = confirm(mod, env, scenario, known, need_all, tries=10)
                 if ok:
-                    path = save_violation_case(pid, json.dumps(scenario, indent=1, sort_keys=True))
+                    path = save_violation_case(pid, json.dumps(scenario, indent=1, sort_keys=True), ext=".json")
                     stats["violations"].append({"signature": sig, "detail": detail[:1500], "replay": path})
                 else:
                     from vlib.common import OUT
@@ -192,7 +195,7 @@ def worker_main(pid, tier, seed, widx, outpath, replay=None):
     os.replace(outpath + ".tmp", outpath)
 
 
-def run(pid, meta, tier, seed, replay=None):
+def run(pid, meta, tier, seed, replay=None, finish=True, module_file="check.py"):
     out = Outcome(pid, tier, seed, meta)
     build.ensure_build()
     native.build_all()
@@ -209,7 +212,10 @@ def run(pid, meta, tier, seed, replay=None):
         if replay:
             cmd.append(os.path.abspath(replay))
         lf = open(os.path.join(workdir, "worker-%d.log" % w), "w")
-        procs.append((subprocess.Popen(cmd, stdout=lf, stderr=subprocess.STDOUT, cwd=VERIF), outpath, lf, w))
+        wenv = dict(os.environ)
+        if meta.get("_part_meta_path"):
+            wenv["VERIF_PART_META"] = meta["_part_meta_path"]
+        procs.append((subprocess.Popen(cmd, stdout=lf, stderr=subprocess.STDOUT, cwd=VERIF, env=wenv), outpath, lf, w))
     distinct = set()
     labels = {}
     inconclusive = {}
@@ -268,7 +274,7 @@ def run(pid, meta, tier, seed, replay=None):
         frac = labels.get(g["label"], 0) / float(max(1, scenarios))
         if frac < g["min_frac"]:
             out.gates_unmet.append("label %s: %.4f < %.4f" % (g["label"], frac, g["min_frac"]))
-    return out.finish()
+    return out.finish() if finish else out
 
 
 if __name__ == "__main__":
